@@ -79,6 +79,7 @@ def programs(tier: str):
             for places in itertools.product(("inline", "create"), repeat=n - 1):
                 labels = [("a", "root")] + [("a" if i % 2 else "s", places[i - 1]) for i in range(1, n)]
                 yield {"tree": _label(shape, labels), "cb": "wrapped"}
+                yield {"tree": _label(shape, labels), "cb": "callables"}
     # two enter / exit events landing in one loop iteration (a scope is left in the very iteration
     # in which a task that inherited its context creates a nested one), trees with <= 3 nodes and
     # at least one task-placed node
@@ -248,6 +249,24 @@ def execute(program, ch: Chooser) -> Result:  # noqa: C901, PLR0915
 
                 return wrapped
             return functools.partial(record)
+        if program["cb"] == "callables":
+            # other callable forms of an ASYNC handler: a functools.partial of a coroutine function,
+            # a bound async method (an object with `async def __call__` is not recognised as
+            # asynchronous by the unchanged library - its coroutine is never awaited; "invoked" it
+            # is, so this is recorded in DESIGN.md section 5 and not claimed)
+            import functools
+
+            async def arecord(tag, metrics):
+                record(metrics)
+
+            class Handler:
+                async def __call__(self, metrics):
+                    record(metrics)
+
+                async def method(self, metrics):
+                    record(metrics)
+
+            return (functools.partial(arecord, "tag"), Handler().method)[nid % 2]
         if is_async:
 
             async def acb(metrics):
